@@ -212,6 +212,15 @@ def main():
         else:
             body.append(f"        pt.If(pt.Int(1)).Then(pt.Pop(pt.Int({c}))),")
             line_of[c] = len(body)
+    # named constants that exist before the user's statement is written (module-level OnComplete / TxnType objects), as the FIRST thing their
+    # statement pushes, each on its own line after an unrelated statement
+    enum_line = {}
+    for text, teal_tok in (("pt.Pop(pt.OnComplete.DeleteApplication == pt.Txn.on_completion()),", "int DeleteApplication"),
+                           ("pt.Pop(pt.TxnType.AssetTransfer == pt.Txn.type_enum()),", "int axfer"),
+                           ("pt.Seq(pt.InnerTxnBuilder.Begin(), pt.InnerTxnBuilder.SetField(pt.TxnField.on_completion, pt.OnComplete.OptIn)),", "int OptIn")):
+        body.append(f"        pt.Pop(pt.Int({555000 + len(enum_line)})),")
+        body.append("        " + text)
+        enum_line[teal_tok] = len(body)
     body += ["        pt.Approve(),", "    )", ""]
     with open(src, "w") as f:
         f.write("\n".join(body))
@@ -234,6 +243,14 @@ def main():
             d = dec.get((idx[0], 0))
             if d is None or os.path.realpath(d[0] or "") != os.path.realpath(src) or d[1] + 1 != line_of[c]:
                 out["problems"].append(f"Revision-3 JSON attributes the constant written on {src}:{line_of[c]} to {d}")
+        for tok, ln in enum_line.items():
+            idx = [i for i, l in enumerate(tl) if l.strip() == tok]
+            if len(idx) != 1:
+                out["problems"].append(f"named constant {tok!r} not found exactly once in TEAL (harness expectation)")
+                continue
+            m = r3.entries[(idx[0], 0)]
+            if os.path.realpath(m.source or "") != os.path.realpath(src) or m.source_line + 1 != ln:
+                out["problems"].append(f"named constant {tok!r} written on {src}:{ln} is attributed to {m.source}:{(m.source_line if m.source_line is not None else -2) + 1}")
         if len(set(v[0] for v in dec.values())) < 2:
             out["problems"].append("attribution scenario did not involve two source files (harness problem)")
         out["n"] += 1
